@@ -69,23 +69,13 @@ def windOf (sp dir ty : String) : Option (Wind Float) :=
 def field (f : List (List Float)) : String := strs f.flatten
 
 /-- the stress balance as a total function: a raised evaluation is a NaN value -/
-def balF (c : Ctx) (w : Wind Float) (lz : Float) : Float :=
-  match stressBalance flr c.p c.g c.kin c.E w lz with
-  | some v => v
-  | none => nanF
+def balF (c : Ctx) (w : Wind Float) (lz : Float) : Float := balanceTotal nanF flr c.p c.g c.kin c.E w lz
 
-def roughF (c : Ctx) (w : Wind Float) (guess : Float) : Option Float :=
-  if w.speed == 0 then none else roughness (balF c w) c.p w guess
+def roughF (c : Ctx) (w : Wind Float) (guess : Float) : Option Float := roughnessOf nanF flr c.p c.g c.kin c.E w guess
 
 /-- `_u10_iteration_function` with the roughness guess reset for every evaluation -/
 def u10F (c : Ctx) (dirDeg target : Float) (dEdt : List (List Float)) (u10 : Float) : Float :=
-  if u10 == 0 then -target else
-  let w : Wind Float := { speed := u10, dirDeg := dirDeg, isU10 := true }
-  match roughF c w (-1) with
-  | none => nanF
-  | some z0 =>
-    let gen := st4Input flr c.p c.g c.kin c.E w z0
-    bulk c.g gen - target - activeRegionDerivative c.g dEdt gen
+  u10Balance nanF flr c.p c.g c.kin c.E dirDeg target dEdt u10
 
 def parseBrk (l : List Float) : Option (BrkP Float) :=
   match l with
